@@ -400,7 +400,11 @@ func (s *Syncer) handleRPC(id types.Specifier, stream *gateway.Stream, origin *P
 		// NOTE: The purpose of header announcements is to inform the network as
 		// quickly as possible that a new block has been found. A proper
 		// BlockOutline should follow soon after, allowing peers to obtain the
-		// actual block. As such, we take no action here other than relaying.
+		// actual block. No outline follows when the peer announces a tip it has
+		// just synced to (or when the outline is lost), so we also ask the peer
+		// for its headers on the next sync tick; if the outline has arrived by
+		// then, that costs one empty response.
+		s.resync(origin, "peer relayed a v2 header that extends our tip")
 		go s.relayV2Header(r.Header, origin) // non-blocking
 		return nil
 
